@@ -1,6 +1,8 @@
 """C20 — correlated-k reduces to cross-sections when the k-distribution is degenerate."""
 import os
 
+import math
+
 import numpy as np
 
 import common as C
@@ -46,9 +48,9 @@ def run(ctx):
                     b = tmodel.build(spec, emission=em, kdir=kdir).model()
                 ctx.case(('degenerate', em, i, float(a[1][0])),
                          nontrivial=bool(np.any((a[2] > 1e-6) & (a[2] < 1 - 1e-6))) or em)
-                # emission: the cross-section path clamps optically thick layers, the k-table path does not: agreement to
-                # 1e-7 (observed differences are of order 1e-9 in saturated atmospheres; a wrong factor moves results by >= 1e-3)
-                ok = np.allclose(a[1], b[1], rtol=1e-7 if em else 1e-9, atol=0) and np.array_equal(a[0], b[0])
+                # emission: the cross-section path drops exp(-tau) terms of layers with tau >= 10 (the licensed cut-off),
+                # the k-table path keeps them: the two may differ by exp(-10) of the hottest layer's black body
+                ok = np.allclose(a[1], b[1], rtol=(math.exp(-10) + 1e-7) if em else 1e-9, atol=0) and np.array_equal(a[0], b[0])
                 if not em:
                     ok = ok and np.allclose(a[2], b[2], rtol=0, atol=1e-9)
                 if ok:
